@@ -79,12 +79,12 @@ def job_curve(res, kind, R, Wmode):
         if p.out != 'ret': res.inc(f'{label}: path {p.out} {p.err}'); continue
         res.absorb(p.m); gc = p.m.lower(p.ret) if isF(p.ret) else z3.RealVal(Fraction(p.ret))
         # the level L is whatever term the code compares with the threshold: 20*log10(|x|+eps) as an uninterpreted function value -> free real
-        xs = fsym('x'); Lnode = fbin('fmul', F('call', 'log10', fbin('fadd', F('call', 'fabs', xs), EPS)), 20.0); L = p.m.lower(Lnode)
+        xs = fsym('x'); Lnode = fbin('fmul', F('call', 'log10', fbin('fadd', F('call', 'fabs', xs), EPS)), 20.0); L = p.m.lower(Lnode); lax = level_axioms(p.m, xs, L)
         paths.append((p, gc, L))
         for claim, desc, key in ((zabs(gc - (z_curve(kind, T, R, Wz, L) - L)) <= TOL, 'gain == documented static curve (unity below threshold, slope 1/ratio or flat ceiling above, quadratic knee)', 'curve'),
                                  (gc <= TOL, 'gain <= 0 dB (never amplifies)', 'range'),
                                  (L + gc <= z3.If(L > T, L, T) + TOL if kind == 'comp' else L + gc <= T + TOL, 'output level never above max(input level, threshold)' if kind == 'comp' else 'limiter output level never above the threshold', 'ceiling')):
-            sol = z3.Solver(); sol.set('timeout', 60000); sol.add(*p.m.pc); sol.add(z3.Not(claim)); t0 = time.time(); c = sol.check(); res.queries += 1; res.solver_s += time.time() - t0
+            sol = z3.Solver(); sol.set('timeout', 60000); sol.add(*p.m.pc); sol.add(*lax); sol.add(z3.Not(claim)); t0 = time.time(); c = sol.check(); res.queries += 1; res.solver_s += time.time() - t0
             if c == z3.unsat: res.ob(True, 'NRA+UF', f'{label}: path |pc|={len(p.m.pc)}: forall T, W, x. {desc}')
             elif c == z3.sat:
                 mdl = model_dict(sol)
@@ -98,6 +98,18 @@ def job_curve(res, kind, R, Wmode):
                 break
             else: res.inc(f'{label}: {desc}: undecided')
 
+
+def level_axioms(m, xs, Lz):
+    """sound links between the dB-domain level L = 20*log10(|x|+eps) (an uninterpreted value) and every linear-domain constant P = pow(10, E) the code formed on this path
+    (e.g. a cached db2mag(threshold) a fast path compares |x| with): log10 is strictly increasing, so  |x|+eps < P  <=>  L < 20*E, and P > 0."""
+    ax = []; a = m.lower(fbin('fadd', F('call', 'fabs', xs), EPS))
+    for node in list(F._tab.values()):
+        if node.op == 'call' and node.args[0] == 'pow' and len(node.args) == 3 and not isF(node.args[1]) and node.args[1] == 10.0 and isF(node.args[2]):
+            P = m.lower(node); E = m.lower(node.args[2]); ax += [P > 0, (a < P) == (Lz < 20 * E), (a == P) == (Lz == 20 * E)]
+            # stated bound: inputs in the 2.2e-16 wide sliver P - eps <= |x| < P (where a comparison of |x| and of |x|+eps with P disagree) are outside the claim
+            ax.append(z3.Or(a < P, m.lower(F('call', 'fabs', xs)) >= P))
+    return ax
+
 def job_monotone(res, kind, R):
     """two input levels L1 <= L2 through the real gain computer (all region pairs): output level non-decreasing"""
     mod, so = load(HARNESS); fn = 'h_comp_curve' if kind == 'comp' else 'h_lim_curve'
@@ -108,8 +120,8 @@ def job_monotone(res, kind, R):
             m.assume(z3.And(T >= -50, T <= 0, W > 0, W <= 20)); return ([fsym('T'), R, fsym('W'), fsym(xname)] if kind == 'comp' else [fsym('T'), fsym('W'), fsym(xname)]), None
         for p in explore(mod, '@' + fn, setup, max_paths=64):
             if p.out != 'ret': continue
-            res.absorb(p.m); xs = fsym(xname); L = p.m.lower(fbin('fmul', F('call', 'log10', fbin('fadd', F('call', 'fabs', xs), EPS)), 20.0))
-            out.append((list(p.m.pc), p.m.lower(p.ret) if isF(p.ret) else z3.RealVal(Fraction(p.ret)), L))
+            res.absorb(p.m); xs = fsym(xname); L = p.m.lower(fbin('fmul', F('call', 'log10', fbin('fadd', F('call', 'fabs', xs), EPS)), 20.0)); lax = level_axioms(p.m, xs, L)
+            out.append((list(p.m.pc) + lax, p.m.lower(p.ret) if isF(p.ret) else z3.RealVal(Fraction(p.ret)), L))
         return out
     A = run('x'); B = run('y')
     for (pc1, g1, L1) in A:
@@ -135,7 +147,7 @@ def job_smooth(res, kind, R, W, ta, tr):
     for p in explore(mod, '@' + fn, setup, max_paths=200):
         if p.out != 'ret': res.inc(f'{label}: path {p.out} {p.err}'); continue
         res.absorb(p.m); o = p.m.read_doubles(p.ctx, 3); gs1 = p.m.lower(o[2]) if isF(o[2]) else z3.RealVal(Fraction(o[2]))
-        xs = fsym('x'); L = p.m.lower(fbin('fmul', F('call', 'log10', fbin('fadd', F('call', 'fabs', xs), EPS)), 20.0))
+        xs = fsym('x'); L = p.m.lower(fbin('fmul', F('call', 'log10', fbin('fadd', F('call', 'fabs', xs), EPS)), 20.0)); lax = level_axioms(p.m, xs, L)
         gc = z_curve(kind, T, R, z3.RealVal(Fraction(W)), L) - L if W > 0 else (z3.If(L >= T, (T + ((L - T) / R if kind == 'comp' else 0)) - L, z3.RealVal(0)))
         claims = [(z3.And(gs1 <= z3.If(G0 >= gc, G0, gc) + TOL, gs1 >= z3.If(G0 <= gc, G0, gc) - TOL), 'smoothed gain stays between the previous value and the target'), (gs1 <= TOL, 'smoothed gain stays <= 0 dB, so the linear gain 10^(g/20) is in (0, 1]')]
         if (ta == 0.0 and tr == 0.0): claims.append((zabs(gs1 - gc) <= TOL, 'zero attack and release: the applied gain is the static curve'))
@@ -147,7 +159,7 @@ def job_smooth(res, kind, R, W, ta, tr):
         struct_ok = isF(o[0]) and o[0].op == 'call' and o[0].args[0] == 'pow' and isF(o[1]) and o[1].op == 'fmul' and (o[1].args[0] is o[0] or o[1].args[1] is o[0])
         claims.append((z3.BoolVal(bool(struct_ok)), 'gain output is pow(10, g/20) of the smoothed gain and out = x * gain'))
         for claim, desc in claims:
-            sol = z3.Solver(); sol.set('timeout', 60000); sol.add(*p.m.pc); sol.add(z3.Not(claim)); c = sol.check(); res.queries += 1
+            sol = z3.Solver(); sol.set('timeout', 60000); sol.add(*p.m.pc); sol.add(*lax); sol.add(z3.Not(claim)); c = sol.check(); res.queries += 1
             if c == z3.unsat: res.ob(True, 'NRA+UF', f'{label}: path |pc|={len(p.m.pc)}: forall T, gs0 <= 0, x. {desc}')
             elif c == z3.sat:
                 mdl = model_dict(sol); Tv = model_float(mdl, 'T', -10.0); g0 = model_float(mdl, 'gs0', -1.0)
@@ -256,9 +268,9 @@ def main(tier, seed):
                    'arbitrary real): on every path z3 decides gain == documented piecewise characteristic, gain <= 0 dB, ceiling, monotonicity across every pair of regions and continuity at both knee edges. One processing step from '
                    'an arbitrary smoothed-gain state: new state between old state and target, <= 0 dB, equal to the static curve for zero attack/release, outputs are pow(10, g/20) and x*gain. NoiseGate: one step from an arbitrary '
                    '(gain in [0,1], hold counter) state. Agc: on every path the applied log-gain is <= log(10^(max_gain/20)).',
-        assumptions=['axioms: pow(10, g/20) in (0, 1] for g <= 0 and exp monotone (used to translate the dB / log-domain invariants into the linear-gain statements)', 'private state is set through a harness-only "#define private public"',
+        assumptions=['axiom (log10 strictly increasing): for every constant P = pow(10, E) the code forms, |x|+eps < P <=> 20*log10(|x|+eps) < 20*E', 'axioms: pow(10, g/20) in (0, 1] for g <= 0 and exp monotone (used to translate the dB / log-domain invariants into the linear-gain statements)', 'private state is set through a harness-only "#define private public"',
                      'sample rate and time constants concrete (the smoothing coefficients are then concrete doubles in [0, 1])'],
         bounds={'ratios': str(Rs), 'threshold': '[-50, 0] dB symbolic', 'knee': '(0, 20] dB symbolic and 0', 'steps': 'one step from an arbitrary state (Agc: 3-4 samples from the constructed state)'},
-        outside=['Agc convergence to the target level', 'time-constant calibration (10-90 % rise)', 'linear-domain ceiling |out| <= 10^(T/20) follows from the dB-domain claim by pow10(log10 v) = v and is not re-derived'], seed=seed, selftest=selftest)
+        outside=['inputs with P - eps <= |x| < P for a linear-domain constant P = 10^(E/20) formed by the code (a sliver 2.2e-16 wide)', 'Agc convergence to the target level', 'time-constant calibration (10-90 % rise)', 'linear-domain ceiling |out| <= 10^(T/20) follows from the dB-domain claim by pow10(log10 v) = v and is not re-derived'], seed=seed, selftest=selftest)
 
 def replay(path): return replay_main(path, ORACLES)
